@@ -217,57 +217,7 @@ func (a *c05) checkArming() {
 			"timer armed for Cron.entries[0].Next with the list sorted since its last mutation",
 			"the wake-up timer is not armed for the earliest pending activation ("+whyX+"): the clock reaches an earlier entry's activation instant while the scheduler sleeps, that job is started late and several of its instants collapse into one start")
 
-		// freshness of now
-		whyY := ""
-		var visit func(v ssa.Value, stack map[ssa.Value]bool)
-		visit = func(v ssa.Value, stack map[ssa.Value]bool) {
-			if whyY != "" {
-				return
-			}
-			switch p := v.(type) {
-			case *ssa.Phi:
-				if stack[v] {
-					whyY = "the time subtracted from Next can be the value kept from before the scheduler last waited (variable " + p.Comment + " not refreshed on a path through " + a.pos(p.Block().Instrs[len(p.Block().Instrs)-1]) + ")"
-					return
-				}
-				stack[v] = true
-				for i, ed := range p.Edges {
-					if ed == v {
-						whyY = "the time subtracted from Next is carried over unchanged around the loop (edge from the block ending at " + a.pos(p.Block().Preds[i].Instrs[len(p.Block().Preds[i].Instrs)-1]) + ")"
-						return
-					}
-					visit(ed, stack)
-				}
-				delete(stack, v)
-				return
-			case *ssa.Parameter:
-				acts := a.actualsOf(p)
-				if acts == nil || stack[v] {
-					whyY = "the time subtracted from Next is a parameter whose callers cannot be enumerated"
-					return
-				}
-				stack[v] = true
-				for _, av := range acts {
-					visit(av, stack)
-				}
-				delete(stack, v)
-				return
-			case *ssa.Call:
-				for _, n := range []string{"In", "UTC", "Local"} {
-					if c05IsTimeMethod(p, n) {
-						visit(p.Call.Args[0], stack)
-						return
-					}
-				}
-			}
-			if !a.clockDerived(v) {
-				whyY = "the time subtracted from Next is not a reading of the clock"
-			}
-		}
-		visit(y, map[ssa.Value]bool{})
-		r.Check(whyY == "", "C05.S7-fresh-now", base+" duration uses a fresh clock reading", a.pos(arm),
-			"on every path to the arming the subtracted instant was read from the clock / delivered by the timer after the previous wait",
-			"the timer duration is computed against a stale instant: "+whyY+" — the duration is too long by the time that passed since, the wake-up comes after the activation instant and activations are started late or merged")
+		a.checkFreshNow(arm, y, base)
 	}
 	for _, s := range sorters {
 		a.checkComparator(s)
@@ -447,11 +397,144 @@ func (a *c05) wakeCase() (*ssa.BasicBlock, *ssa.Function) {
 	return wake, wakeFn
 }
 
+// isClockReading: in takes a reading of the clock (or receives a timer's value).
+func (a *c05) isClockReading(in ssa.Instruction) bool {
+	v, ok := in.(ssa.Value)
+	if !ok {
+		return false
+	}
+	switch x := in.(type) {
+	case *ssa.Call:
+		for _, n := range []string{"In", "UTC", "Local"} {
+			if c05IsTimeMethod(x, n) {
+				return false // a transform, not a reading
+			}
+		}
+	case *ssa.Extract:
+	case *ssa.UnOp:
+		if x.Op != token.ARROW {
+			return false
+		}
+	default:
+		return false
+	}
+	if namedKey(v.Type()) != "time.Time" {
+		return false
+	}
+	return a.clockDerived(v)
+}
+
+// checkFreshNow (S7-fresh-now): at the arming, the variable subtracted from
+// Next was last assigned a clock reading taken after the scheduler's previous
+// wait. Decided by a path-sensitive flow over the variable's location (SSA web
+// through parameters, or local memory), with flag variables (boolean phis)
+// tracked so that "exit the wait loop only when re-arming is needed" loops are
+// followed exactly.
+func (a *c05) checkFreshNow(arm *ssa.Call, y ssa.Value, base string) {
+	r := a.r
+	construct := base + " duration uses a fresh clock reading"
+	for {
+		call, ok := y.(*ssa.Call)
+		if !ok {
+			break
+		}
+		stripped := false
+		for _, n := range []string{"In", "UTC", "Local"} {
+			if c05IsTimeMethod(call, n) {
+				y, stripped = call.Call.Args[0], true
+			}
+		}
+		if !stripped {
+			break
+		}
+	}
+	cs := a.schedCase(a.fStop)
+	if cs == nil {
+		return
+	}
+	loc := a.locOf(y)
+	if loc.empty() {
+		// the subtracted instant is computed right there
+		switch a.clockKind(y) {
+		case c05ClockYes:
+			r.OK("C05.S7-fresh-now", construct, a.pos(arm), "the subtracted instant is read from the clock at the arming")
+		case c05ClockNo:
+			r.Violation("C05.S7-fresh-now", construct, a.pos(arm), "the timer duration is computed against something that is not a reading of the clock: the wake-up does not come at the activation instant")
+		default:
+			r.Undecide("C05.S7-fresh-now: the instant subtracted from Next at %s comes from a source the checker does not classify", a.pos(arm))
+		}
+		return
+	}
+	const stale, recent = 1, 2
+	notClock, unknownSrc := "", ""
+	assign := func(vals []ssa.Value, g int) int {
+		for _, v := range vals {
+			if v == nil {
+				g |= stale
+				continue
+			}
+			switch a.clockKind(v) {
+			case c05ClockYes:
+				if g&recent != 0 {
+					g &^= stale
+				} else {
+					g |= stale
+				}
+			case c05ClockNo:
+				notClock = v.String()
+				g |= stale
+			default:
+				unknownSrc = v.String()
+				g |= stale
+			}
+		}
+		return g
+	}
+	f := &c05Flow{a: a, G: 4, Fresh: stale}
+	f.Tracked = c05BoolPhi
+	f.Step = func(in ssa.Instruction, g int) (int, bool) {
+		if in == ssa.Instruction(cs.sel) {
+			return stale, false
+		}
+		if a.isClockReading(in) {
+			g |= recent
+		}
+		if vals, ok := loc.stepAssign(in); ok {
+			g = assign(vals, g)
+		}
+		return g, false
+	}
+	f.EdgeG = func(from, to *ssa.BasicBlock, g int) int {
+		if vals := loc.edgeAssign(from, to); len(vals) > 0 {
+			return assign(vals, g)
+		}
+		return g
+	}
+	f.Run(nil)
+	ok, reached := f.All(arm, func(g int) bool { return g&stale == 0 })
+	if !reached {
+		return
+	}
+	if !ok && unknownSrc != "" && notClock == "" {
+		r.Undecide("C05.S7-fresh-now: the variable subtracted from Next at %s is assigned from a source the checker does not classify (%s)", a.pos(arm), unknownSrc)
+		return
+	}
+	why := "on some path the variable subtracted from Next still holds a value from before the scheduler last waited (it is not re-assigned a clock reading / the timer's value after the wait)"
+	if notClock != "" {
+		why = "the variable subtracted from Next is assigned something that is not a reading of the clock (" + notClock + ")"
+	}
+	r.Check(ok, "C05.S7-fresh-now", construct, a.pos(arm),
+		"on every path to the arming the subtracted instant was read from the clock / delivered by the timer after the previous wait",
+		"the timer duration is computed against a stale instant: "+why+" — the duration is too long by the time that passed since, the wake-up comes after the activation instant and activations are started late or merged")
+}
+
 // checkDrain (S7-drain): a blocking receive that drains a timer's channel
-// (`<-timer.C()` after Stop() reported false), in the loop or in a helper that
-// receives the timer as a parameter, must not be reachable with the timer
-// whose value the wake-up case has already consumed: that channel will never
-// deliver again and the scheduler would block forever.
+// (`<-timer.C()` after Stop() reported false), in the loop or in a helper, must
+// not be reachable while the timer variable still holds the timer whose value
+// the wake-up case has consumed: that channel will never deliver again and the
+// scheduler would block forever. Path-sensitive flow over the timer variable's
+// location (SSA web / parameter / field of a local struct), tracking boolean
+// flags and nil tests.
 func (a *c05) checkDrain() {
 	r := a.r
 	wake, wakeFn := a.wakeCase()
@@ -459,69 +542,8 @@ func (a *c05) checkDrain() {
 		r.Undecide("C05.S7: the scheduler's select has no case receiving from a timer channel (anchor lost)")
 		return
 	}
-	fromWake := reachableFrom(wake, nil)
-	why := ""
-	// bad(T, at): on some path from the wake-up case to block `at` (in wakeFn),
-	// T still denotes the timer that was armed before the wait.
-	var bad func(v ssa.Value, at *ssa.BasicBlock, depth int) bool
-	bad = func(v ssa.Value, at *ssa.BasicBlock, depth int) bool {
-		vi, isInstr := v.(ssa.Instruction)
-		if !isInstr || depth > 6 {
-			return false // constants (nil)
-		}
-		if ex, ok := v.(*ssa.Extract); ok {
-			// result of an arming helper: as old as the call
-			if ci, ok := ex.Tuple.(ssa.Instruction); ok {
-				vi = ci
-			}
-		}
-		db := vi.Block()
-		R := reachableFrom(wake, map[*ssa.BasicBlock]bool{db: true})
-		if R[at] {
-			return true // reached without re-executing v's definition: v predates the wake-up
-		}
-		phi, isPhi := v.(*ssa.Phi)
-		if !isPhi {
-			return false
-		}
-		for i, ed := range phi.Edges {
-			pred := db.Preds[i]
-			if R[pred] && bad(ed, pred, depth+1) {
-				why = "through the block ending at " + a.pos(pred.Instrs[len(pred.Instrs)-1]) + " the timer variable still refers to the timer that has just fired"
-				return true
-			}
-		}
-		return false
-	}
-	// badAt: the same question for a timer value T used at `at` in function fn
-	// (a helper receiving the timer as a parameter is followed to its callers).
-	var badAt func(T ssa.Value, at *ssa.BasicBlock, fn *ssa.Function, depth int) (isBad, relevant bool)
-	badAt = func(T ssa.Value, at *ssa.BasicBlock, fn *ssa.Function, depth int) (bool, bool) {
-		if fn == wakeFn {
-			if !fromWake[at] {
-				return false, false // e.g. the drain in the stop case
-			}
-			return bad(T, at, 0), true
-		}
-		par, ok := T.(*ssa.Parameter)
-		if !ok || depth > 4 {
-			return false, false // a timer created in the helper itself
-		}
-		idx := c05ParamIndex(par)
-		anyBad, anyRel := false, false
-		for _, s := range a.sites[fn] {
-			args := s.Common().Args
-			if idx < 0 || idx >= len(args) {
-				continue
-			}
-			b, rel := badAt(args[idx], s.Block(), s.Parent(), depth+1)
-			anyBad = anyBad || b
-			anyRel = anyRel || rel
-		}
-		return anyBad, anyRel
-	}
-	n := 0
 	construct := "scheduler: timer drain after Stop()==false"
+	n := 0
 	for _, fn := range a.funcs {
 		if !a.schedOnly[fn] {
 			continue
@@ -535,22 +557,48 @@ func (a *c05) checkDrain() {
 			if !ok || !call.Call.IsInvoke() || call.Call.Method.Name() != "C" || call.Call.Method.Pkg() == nil || call.Call.Method.Pkg().Path() != "k8s.io/utils/clock" {
 				return
 			}
-			why = ""
-			isBad, relevant := badAt(call.Call.Value, in.Block(), fn, 0)
-			if !relevant {
+			T := call.Call.Value
+			loc := a.locOf(T)
+			var tdef ssa.Instruction
+			if loc.empty() {
+				tdef, _ = T.(ssa.Instruction)
+				if ex, ok := T.(*ssa.Extract); ok {
+					tdef, _ = ex.Tuple.(ssa.Instruction)
+				}
+			}
+			f := &c05Flow{a: a, G: 2}
+			f.Tracked = func(v ssa.Value) bool { return c05BoolPhi(v) || c05NilablePhi(v) }
+			f.Step = func(x ssa.Instruction, g int) (int, bool) {
+				if x == wake.Instrs[0] {
+					g = 1
+				}
+				if _, ok := loc.stepAssign(x); ok {
+					g = 0
+				}
+				if tdef != nil && x == tdef {
+					g = 0
+				}
+				return g, false
+			}
+			f.EdgeG = func(from, to *ssa.BasicBlock, g int) int {
+				if len(loc.edgeAssign(from, to)) > 0 {
+					return 0
+				}
+				return g
+			}
+			f.Run(nil)
+			ok2, reached := f.All(in, func(g int) bool { return g == 0 })
+			if !reached {
 				return
 			}
 			n++
-			if isBad && why == "" {
-				why = "the timer variable is not cleared or replaced between the wake-up and the drain"
-			}
-			r.Check(!isBad, "C05.S7-drain", construct, a.pos(in),
-				"the drain receive cannot see the timer whose value the wake-up case consumed (variable is nil on those paths)",
-				"after a wake-up the scheduler can execute `<-timer.C()` on the timer whose only value it has already received: Stop() reports false, the receive blocks forever, the scheduler never waits again — no later activation is started and Stop/Remove/Schedule hang ("+why+")")
+			r.Check(ok2, "C05.S7-drain", construct, a.pos(in),
+				"the drain receive cannot see the timer whose value the wake-up case consumed (the variable is cleared or replaced on those paths)",
+				"after a wake-up the scheduler can execute `<-timer.C()` on the timer whose only value it has already received: Stop() reports false, the receive blocks forever, the scheduler never waits again — no later activation is started and Stop/Remove/Schedule hang (the timer variable is not cleared or replaced between the wake-up and the drain on some path)")
 		})
 	}
 	if n == 0 {
-		r.Trivial("C05.S7-drain", construct, a.p.Pos(wakeFn.Pos()), "no blocking drain receive is reachable from the wake-up case")
+		r.Trivial("C05.S7-drain", construct, a.p.Pos(wakeFn.Pos()), "no blocking drain receive of a clock timer in the scheduler")
 	}
 }
 
